@@ -61,7 +61,8 @@ pub fn gen_block_ret(r: &mut Rng, depth: usize, counter: &mut usize, budget: &mu
                 let els = if r.chance(1, 2) { Value::Array(gen_block_ret(r, depth + 1, counter, budget, allow_ret)) } else { Value::Null };
                 out.push(json!({"k": "if", "conds": conds, "bodies": bodies, "else": els, "sp": sp}));
             }
-            4 => out.push(json!({"k": "while", "id": id, "twice": r.chance(1, 2), "body": gen_block_ret(r, depth + 1, counter, budget, allow_ret), "sp": sp})),
+            // "once": the loop runs only the first time it is reached (later it is reached with a condition that is already false)
+            4 => out.push(json!({"k": "while", "id": id, "twice": r.chance(1, 2), "once": r.chance(1, 3), "body": gen_block_ret(r, depth + 1, counter, budget, allow_ret), "sp": sp})),
             _ => out.push(json!({"k": "for", "id": id, "n": r.below(3), "body": gen_block_ret(r, depth + 1, counter, budget, allow_ret), "sp": sp})),
         }
     }
@@ -76,9 +77,9 @@ pub fn gen(r: &mut Rng) -> Value {
         // history: another program has already run on the same Context
         let mut b2 = 6;
         let prelude = gen_block(r, 0, &mut c, &mut b2);
-        return json!({ "prog": prog, "prelude": prelude });
+        return json!({ "prog": prog, "prelude": prelude, "deco": 0 });
     }
-    json!({ "prog": prog })
+    json!({ "prog": prog, "deco": if r.chance(1, 2) { r.next() % 1000000 + 1 } else { 0 } })
 }
 
 /// structural class of an input (to tell the listed known finding from a new violation)
@@ -131,7 +132,13 @@ pub fn render(block: &Vec<Value>, out: &mut Vec<String>) {
             }
             "while" => {
                 let id = s["id"].as_u64().unwrap();
-                out.push(format!("w{} = set true", id));
+                if s["once"].as_bool().unwrap_or(false) {
+                    out.push(format!("w{} = is_defined n{}", id, id));
+                    out.push(format!("w{} = not ${{w{}}}", id, id));
+                    out.push(format!("n{} = set 1", id));
+                } else {
+                    out.push(format!("w{} = set true", id));
+                }
                 out.push(format!("x{} = set {}", id, s["twice"]));
                 out.push(format!("{} ${{w{}}}", WHILE_SP[sp[0] % 2], id));
                 render(&s["body"].as_array().unwrap().clone(), out);
@@ -219,7 +226,13 @@ pub fn interp_ret(block: &Vec<Value>, vars: &mut BTreeMap<String, String>, steps
             }
             "while" => {
                 let id = s["id"].as_u64().unwrap();
-                vars.insert(format!("w{}", id), "true".to_string());
+                if s["once"].as_bool().unwrap_or(false) {
+                    let first = !vars.contains_key(&format!("n{}", id));
+                    vars.insert(format!("w{}", id), first.to_string());
+                    vars.insert(format!("n{}", id), "1".to_string());
+                } else {
+                    vars.insert(format!("w{}", id), "true".to_string());
+                }
                 vars.insert(format!("x{}", id), s["twice"].to_string());
                 while truthy(vars.get(&format!("w{}", id))) {
                     if let Some(rv) = interp_ret(&s["body"].as_array().unwrap().clone(), vars, steps) {
@@ -263,7 +276,7 @@ fn run_inner(input: &Value) -> Option<Value> {
     let prog = input["prog"].as_array()?.clone();
     let mut lines = vec![];
     render(&prog, &mut lines);
-    let script = lines.join("\n");
+    let script = crate::deco::decorate(&lines, input["deco"].as_u64().unwrap_or(0)).join("\n");
     let mut vars = BTreeMap::new();
     let mut steps = 0;
     let mut context = Context::new();
